@@ -240,7 +240,8 @@ theorem belongs_iff (st : States) (p : Pkg) (d : Str) : Belongs st p d ↔ d ∈
         · intro h; subst h; exact ⟨rfl, (pkgUsed_iff _ _ _).mp hu⟩
       · simp only [hu, Bool.false_eq_true, if_false, List.not_mem_nil, iff_false, not_and]
         intro h h'; subst h; exact hu ((pkgUsed_iff st ⟨pv, some q, pvid⟩ q).mpr h')
-  rw [e1, e2, e3, or_assoc]
+  rw [e1, e2, e3]
+  exact or_assoc.symm
 
 /-- `collectPaths` returns exactly the workspaces that belong to a package reachable from the
 root package over `getDirectDepSteps()` (tools-only and sandbox dependencies included) -/
@@ -253,6 +254,16 @@ theorem collect_exact (g : Graph) (st : States) (fuel root : Nat) (used : List S
     exact ⟨q, p, h1, h2, (belongs_iff st p d).mpr h3⟩
   · rintro ⟨q, p, h1, h2, h3⟩
     exact collect_complete h h1 h2 ((belongs_iff st p d).mp h3)
+
+/-- the recursion of `collectPaths` is never deeper than the number of packages: with more fuel
+than packages the model's `walk` cannot run out of fuel and `doClean` always yields a result -/
+theorem clean_total (o : Opts) (w : World) (g : Graph) (fuel root : Nat) (h : g.length < fuel) :
+    ∃ r, doClean o w g fuel root = some r := by
+  unfold doClean
+  by_cases hm : o.mode = .attic
+  · simp [hm]
+  · obtain ⟨used, hu⟩ := collectPaths_total g w.states fuel root h
+    simp [hm, hu]
 
 /-- **clean_only_garbage** (`bob clean`, `bob clean --release`): every deleted path is a known
 directory of the selected mode that exists, that does not belong to any package of the current
